@@ -20,6 +20,7 @@ pub mod c09;
 pub mod reply;
 pub mod c10;
 pub mod c11;
+pub mod c12;
 pub mod rt;
 pub mod c16;
 pub mod docs;
@@ -300,6 +301,7 @@ pub fn lookup(prop: &str) -> Option<PropFn> {
         "C09" => Some(c09::run),
         "C10" => Some(c10::run),
         "C11" => Some(c11::run),
+        "C12" => Some(c12::run),
         "C16" => Some(c16::run),
         "C05A" => Some(rt::c05a),
         "C11A" => Some(rt::c11a),
